@@ -4,7 +4,7 @@
 From Coq Require Import String List NArith ZArith Bool.
 From J5V.lib Require Import Outcome Corr.
 From J5V.model Require Import RulesDecl RulesWrite RulesSpec Validate RulesSpecDec Regex.
-From J5V.model Require Import RulesRead RulesNested RulesNestedSem RulesOneof RulesCompile.
+From J5V.model Require Import RulesRead RulesNested RulesNestedSem RulesOneof RulesCompile RulesCompileTree.
 Import ListNotations.
 
 (* decidable equality on emitted annotations (transparent, so it computes) *)
@@ -147,7 +147,7 @@ Definition c12_check (c : c12case) : bool :=
                   verdict_eqb (validate_obj re_frag_ok re_frag_match (defined_numbers env) obs fvs) vd
                   && spec_agree (rule_objb re_frag_match env ds fvs) g end) msgs
   | C12Oneof env ds obs msgs =>
-      match write_members env ds with
+      match compile_members re_frag_ok env ds with
       | Ok os => list_eqb (fun x y => fout_eqb (c12_proj x) (c12_proj y)) os obs
       | _ => false
       end &&
@@ -155,7 +155,7 @@ Definition c12_check (c : c12case) : bool :=
                   verdict_eqb (validate_obj re_frag_ok re_frag_match (defined_numbers env) obs fvs) vd
                   && spec_agree (member_objb re_frag_match env ds fvs) g end) msgs
   | C12Tree env s obs vals =>
-      match write_schema env [] [70;111;111]%N s with
+      match compile_schema re_frag_ok env [] [70;111;111]%N s with
       | Ok m => mtree_eqb_with c12_proj (c12_view m) obs
       | _ => false
       end &&
